@@ -37,6 +37,10 @@ func (x *Exec) evalCall(e *ast.CallExpr, st *State, env *Env) []Value {
 			if vs, ok := x.specHelper(o, e, st, env); ok {
 				return vs
 			}
+			// pure function (flags pure) named in a specification: its function symbol
+			if ct := x.w.Contracts[funcKey(o)]; ct != nil && ct.Pure && x.inSpec() {
+				return []Value{x.ufApp(o, e, st, env)}
+			}
 			return x.callFunc(o, nil, e, st, env)
 		case *types.Var:
 			// call of a function-typed variable
@@ -415,27 +419,7 @@ func (x *Exec) specHelper(o *types.Func, e *ast.CallExpr, st *State, env *Env) (
 			if ce, ok := es.X.(*ast.CallExpr); ok && len(ce.Args) == 1 {
 				if id, ok := ce.Fun.(*ast.Ident); ok && id.Name == "panic" {
 					if bl, ok := ce.Args[0].(*ast.BasicLit); ok && bl.Value == `"uninterpreted"` {
-						sig := o.Type().(*types.Signature)
-						var sorts, terms []string
-						for i, a := range x.evalArgs(e, st, env) {
-							sc, ok := a.(Scalar)
-							if !ok {
-								x.abort("uninterpreted function %s: argument %d is not a scalar", o.Name(), i)
-							}
-							want := x.classify(sig.Params().At(i).Type())
-							if want.K == TInt && sc.TI.K == TBV {
-								sc = Scalar{x.toInt(sc), want}
-							}
-							sorts = append(sorts, want.sort())
-							terms = append(terms, sc.T)
-						}
-						rt := x.classify(sig.Results().At(0).Type())
-						name := "|uf_" + o.Name() + "|"
-						if _, done := x.fc.sorts[name]; !done {
-							x.fc.sorts[name] = "uf"
-							x.fc.decls = append(x.fc.decls, fmt.Sprintf("(declare-fun %s (%s) %s)", name, strings.Join(sorts, " "), rt.sort()))
-						}
-						return []Value{Scalar{app(name, terms...), rt}}, true
+						return []Value{x.ufApp(o, e, st, env)}, true
 					}
 				}
 			}
@@ -869,7 +853,42 @@ func (x *Exec) callFunc(fn *types.Func, sel *ast.SelectorExpr, e *ast.CallExpr, 
 	if !ok {
 		x.abort("call of %s which has no contract", key)
 	}
-	return x.applyContract(ct, fn, sel, e, st, env, nil)
+	vs := x.applyContract(ct, fn, sel, e, st, env, nil)
+	if ct.Pure && len(vs) == 1 && !dead(st) {
+		// the value is the function symbol applied to the arguments
+		x.specDepth++
+		u := x.ufApp(fn, e, st, env).(Scalar)
+		x.specDepth--
+		if r, ok := vs[0].(Scalar); ok {
+			x.fc.assume(st.pc, eq(r.T, u.T))
+		}
+	}
+	return vs
+}
+
+// ufApp returns the application of the SMT function symbol uf_<name> to the (scalar) arguments of e.
+func (x *Exec) ufApp(o *types.Func, e *ast.CallExpr, st *State, env *Env) Value {
+	sig := o.Type().(*types.Signature)
+	var sorts, terms []string
+	for i, a := range x.evalArgs(e, st, env) {
+		sc, ok := a.(Scalar)
+		if !ok {
+			x.abort("function symbol %s: argument %d is not a scalar", o.Name(), i)
+		}
+		want := x.classify(sig.Params().At(i).Type())
+		if want.K == TInt && sc.TI.K == TBV {
+			sc = Scalar{x.toInt(sc), want}
+		}
+		sorts = append(sorts, want.sort())
+		terms = append(terms, sc.T)
+	}
+	rt := x.classify(sig.Results().At(0).Type())
+	name := "|uf_" + o.Name() + "|"
+	if _, done := x.fc.sorts[name]; !done {
+		x.fc.sorts[name] = "uf"
+		x.fc.decls = append(x.fc.decls, fmt.Sprintf("(declare-fun %s (%s) %s)", name, strings.Join(sorts, " "), rt.sort()))
+	}
+	return Scalar{app(name, terms...), rt}
 }
 
 // stdlibCall models the few standard library functions used by the repo.
@@ -1102,7 +1121,11 @@ func (x *Exec) applyContract(ct *Contract, fn *types.Func, sel *ast.SelectorExpr
 		x.bindExplicitParams(ct, &sc, e, sel, st, env, env2, tag, &resObjs, &resTypes)
 	}
 	// preconditions
+	owner := x.sameOwner(ct)
 	for i, cl := range ct.Requires {
+		if cl.Private && !owner {
+			continue
+		}
 		t := x.evalClause(cl, sc, st, env2)
 		x.fc.oblige("call.pre", shortName(ct.Name)+"."+clauseLabel(cl, i), x.props, x.pos(e.Pos()), st.pc, t, "precondition of "+ct.Name+": "+cl.Text)
 		c.assume(st.pc, t)
@@ -1129,6 +1152,9 @@ func (x *Exec) applyContract(ct *Contract, fn *types.Func, sel *ast.SelectorExpr
 	x.oldStack = append(x.oldStack, pre)
 	// ghost variables mentioned by the callee's postconditions are ghost results: fresh at every call
 	for _, cl := range ct.Ensures {
+		if ct.KeepsGhosts {
+			break
+		}
 		for _, g := range ghostNameRe.FindAllString(cl.Text, -1) {
 			if cur, ok := st.vars["ghost:"+g].(Scalar); ok {
 				st.vars["ghost:"+g] = Scalar{c.fresh(g, cur.TI.sort()), cur.TI}
@@ -1137,6 +1163,9 @@ func (x *Exec) applyContract(ct *Contract, fn *types.Func, sel *ast.SelectorExpr
 	}
 	// the postconditions define the symbols created by this call (counter range (n0, n])
 	for _, cl := range ct.Ensures {
+		if cl.Private && !owner {
+			continue
+		}
 		t := x.evalClause(cl, sc, st, env2)
 		c.assume(st.pc, t)
 	}
@@ -1148,6 +1177,25 @@ func (x *Exec) applyContract(ct *Contract, fn *types.Func, sel *ast.SelectorExpr
 	}
 	x.calls = append(x.calls, ct.Name)
 	return results
+}
+
+// sameOwner reports whether the function being verified is a method of the receiver type of the callee.
+func (x *Exec) sameOwner(ct *Contract) bool {
+	callee := x.w.Decls[ct.Name]
+	if callee == nil || callee.Recv == nil || x.fd == nil || x.fd.Recv == nil {
+		return false
+	}
+	name := func(fd *ast.FuncDecl) string {
+		t := fd.Recv.List[0].Type
+		if s, ok := t.(*ast.StarExpr); ok {
+			t = s.X
+		}
+		if id, ok := t.(*ast.Ident); ok {
+			return id.Name
+		}
+		return ""
+	}
+	return name(callee) != "" && name(callee) == name(x.fd) && x.w.DeclPkg[ct.Name] == x.pkg
 }
 
 var ghostNameRe = regexp.MustCompile(`\bg_[A-Za-z0-9_]+\b`)
